@@ -106,6 +106,27 @@ def _refusing_base(how, slots):
     return Base
 
 
+@attr.s(slots=True)
+class _AttrsBase:
+    """a field-less attrs class: a definition with `base: "attrs"` inherits from it, so the class already finds an
+    (inherited) __attrs_attrs__ / __attrs_own_setattr__ ... while it is built; the generated scripts are those of
+    the same body over `object`"""
+
+
+@attr.s
+class _AttrsDictBase:
+    pass
+
+
+def _plain_base(d, slots):
+    kind = d.get("base", "plain")
+    if kind == "attrs":
+        return _AttrsBase if slots else _AttrsDictBase
+    if kind == "attrsSlots":
+        return _AttrsBase
+    return object
+
+
 def define(modname, d, cfg):
     """define one class of the history in the synthetic module; returns the class (raises `Refused` when the
     definition is one that is refused after code generation)"""
@@ -117,7 +138,8 @@ def define(modname, d, cfg):
     qual = d["qual"]
     if body.get("cprop"):
         kw["slots"] = True
-    ns = {"__name__": modname, "__h__": {"fields": fields, "kw": kw, "attr": attr, "base": object}}
+    ns = {"__name__": modname, "__h__": {"fields": fields, "kw": kw, "attr": attr,
+                                         "base": _plain_base(d, bool(kw.get("slots")))}}
     if d.get("fails"):
         ns["__h__"]["base"] = _refusing_base(d.get("failHow", "subclass_hook"), bool(kw.get("slots")))
     if body.get("cprop"):
@@ -263,7 +285,8 @@ def reference_texts(modname, case, cfg):
     out = []
     for d in case["defs"]:
         hashed = BODIES[d["body"]].get("hashed")
-        key = (d["body"], cfg.get("api"), bool(cfg.get("slots")), d["qual"].isidentifier())
+        key = (d["body"], cfg.get("api"), bool(cfg.get("slots")), d["qual"].isidentifier(), d.get("base", "plain"),
+               bool(cfg.get("registered", True)))
         if not hashed and key in _REF:
             out.append(_REF[key])
             continue
@@ -396,7 +419,11 @@ def _source_flags(case, classes, refs):
 def observe_hist(case):
     modname = case["modul"]
     cfg = case.get("cfg", {})
-    sys.modules[modname] = types.ModuleType(modname)
+    sys.modules.pop(modname, None)
+    if cfg.get("registered", True):
+        # harness-only: `registered: false` leaves the classes' __module__ out of sys.modules (a namespace that is
+        # exec'd under its own __name__, a module dropped before its classes are defined)
+        sys.modules[modname] = types.ModuleType(modname)
     classes, stable = [], []
     try:
         refs = reference_texts(modname, case, cfg)
@@ -501,7 +528,11 @@ def observe_conc(case):
     modname = case["modul"]
     cfg = case.get("cfg", {})
     n = len(case["defs"])
-    sys.modules[modname] = types.ModuleType(modname)
+    sys.modules.pop(modname, None)
+    if cfg.get("registered", True):
+        # harness-only: `registered: false` leaves the classes' __module__ out of sys.modules (a namespace that is
+        # exec'd under its own __name__, a module dropped before its classes are defined)
+        sys.modules[modname] = types.ModuleType(modname)
     ctl = Controller(case["sched"], n)
     classes = [None] * n
     original = linecache.cache
